@@ -200,7 +200,25 @@ def two_label_alkanes(rng, n_mol, k=10):
             for _ in range(3 if a in (0, k - 1) else 2):
                 atoms.append(("H", 0, 0, 0)); bonds.append((a, len(atoms) - 1, 1))
         out.append((f"alkane{k}-13C-{i}-{j}", mol(atoms, bonds)))
+        # the second label on a hydrogen instead (two elements: their numbers lie far apart)
+        atoms2 = [(s, (0 if a == j else m), r, c) for a, (s, m, r, c) in enumerate(atoms)]
+        hs = [b for (a, b, _) in bonds if a == j and b >= k] + [a for (a, b, _) in bonds if b == j and a >= k]
+        if hs:
+            h = rng.choice(hs)
+            atoms2[h] = ("H", 2, 0, 0)
+            out.append((f"alkane{k}-13C-{i}-D-{j}", mol(atoms2, bonds)))
     return out
+
+
+def arms_hubs(narms=256):
+    """two equal centres, bonded to each other, one with `narms` C-F arms, the other with `narms` C-Cl arms"""
+    atoms, bonds = [("Zr", 0, 0, 0), ("Zr", 0, 0, 0)], [(0, 1, 1)]
+    for hub, hal in ((0, "F"), (1, "Cl")):
+        for _ in range(narms):
+            c = len(atoms)
+            atoms += [("C", 0, 0, 0), (hal, 0, 0, 0)]
+            bonds += [(hub, c, 1), (c, c + 1, 1)]
+    return mol(atoms, bonds)
 
 
 def solvent_box(rng, n_waters=110):
